@@ -15,12 +15,14 @@ import trace as tr
 MODULE = "DfolsVerif.Properties.C08"
 BUILD_TARGETS = ss.ACCEPT_TARGETS
 def pre_build(ctx):
+    import gen_trysites
+    gen_trysites.regenerate(ctx)
     import gen_exitsites
     ctx.cov["exit_creation_sites_in_repo"] = gen_exitsites.regenerate(ctx)
 
 
 THEOREMS = [
-    "Dfols.C08.C08_src_fault_exits","Dfols.C08.C08_finite_kept", "Dfols.C08.C08_budget", "Dfols.C08.C08_exception", "Dfols.C08.C08_returned_x_evaluated"]
+    "Dfols.C08.C08_src_fault_exits","Dfols.C08.C08_finite_kept", "Dfols.C08.C08_budget", "Dfols.C08.C08_exception", "Dfols.C08.C08_returned_x_evaluated", "Dfols.C08.C08_src_no_handler_around_objfun"]
 LEVEL = "proof"
 TRUSTED_EXTRA = [
     "that the numerics after a fault never raise (LAPACK / NumPy errors on non-finite data) is NOT a theorem: fault enumeration on the real code",
